@@ -262,11 +262,17 @@ func genPrioScenario(rng *rand.Rand, g prioGen) PrioScenario {
 			if g.Mode == "progress" || g.Mode == "general" {
 				sc.Script = append(sc.Script, POp{K: "P"})
 			}
+			if g.Mode == "progress" && (sc.Divider == "fair" || sc.Divider == "rate") && H <= 128 && rng.IntN(2) == 0 {
+				p := prios[rng.IntN(len(prios))]
+				if !closed[p] {
+					sc.Script = append(sc.Script, POp{K: "B", P: p})
+				}
+			}
 		case k < 19:
 			if (g.Mode == "progress" || g.Mode == "general") && (sc.Divider == "fair" || sc.Divider == "rate") && H <= 128 {
 				p := prios[rng.IntN(len(prios))]
 				if !closed[p] {
-					sc.Script = append(sc.Script, POp{K: "A", P: p})
+					sc.Script = append(sc.Script, POp{K: []string{"A", "B", "B"}[rng.IntN(3)], P: p})
 				}
 			}
 		default:
@@ -372,6 +378,10 @@ func genPrioScenario(rng *rand.Rand, g prioGen) PrioScenario {
 				sort.Slice(ps, func(i, j int) bool { return ps[i] < ps[j] })
 				p := ps[rng.IntN(len(ps))]
 				n := 1 + rng.IntN(H+2)
+				if rng.IntN(3) == 0 {
+					// replace a channel that was closed and has been seen drained
+					out = append(out, POp{K: "C", P: p}, POp{K: "D"}, POp{K: "R", Mode: "all"}, POp{K: "D"})
+				}
 				out = append(out, POp{K: "repl", P: p, Cap: capOf(n)}, POp{K: "W", P: p, N: n})
 			case 2: // remove
 				var ps []uint
